@@ -25,7 +25,7 @@ from operon_ai.topology.quorum import QuorumSensing
 ID = "C05"
 LEVEL = "exploration"
 ENGINE = "threads"
-RUNS = {"quick": 6_000, "thorough": 600_000}
+RUNS = {"quick": 24_000, "thorough": 600_000}
 RULE = ("seeded workloads (1-2 stores, 2-3 tasks x 1-3 operations from consume/regenerate/convert/transfer in both "
         "directions, optional real regeneration thread on a virtual 1 s timer) x seeded schedules (serial, uniform, "
         "sticky, pct, lock-biased) with a decision at every source line of metabolism.py and every lock operation; "
